@@ -86,9 +86,6 @@ impl RunLog {
             })
             .collect()
     }
-    pub fn decisions(&self) -> u64 {
-        self.execs.iter().map(|e| e.evs.len() as u64).sum()
-    }
 }
 
 pub struct Recorder<S> {
